@@ -39,7 +39,8 @@ BASES_CYC = [
 ]
 
 MUTATIONS = ["covlen_0", "covlen_neg", "covlen_big", "covlen_without_length_attr", "covlen_with_coverage", "nonstring_node", "cycle", "no_source", "no_sink", "negative", "negative_last", "missing", "nonconserving", "nonconserving_quarter", "cons_absent_arc", "cons_not_list", "cons_empty", "cons_nontuple",
-             "coverage_0", "coverage_neg", "coverage_big", "coverage_nan", "covlen_nan", "k_0", "k_neg", "k_frac", "weight_type_str", "origin_foo", "unknown_start", "unknown_end", "scale_big", "scale_neg", "scale_nan", "empty_graph"]
+             "coverage_0", "coverage_neg", "coverage_big", "coverage_nan", "covlen_nan", "k_0", "k_neg", "k_frac", "weight_type_str", "origin_foo", "unknown_start", "unknown_end", "scale_big", "scale_neg", "scale_nan", "empty_graph",
+             "k_0_superset", "k_neg_superset", "nan_weight", "inf_weight", "unknown_start_edge", "unknown_end_edge", "tolerance_nan"]
 
 
 def bounds(tier):
@@ -52,13 +53,19 @@ def applicable(cls, mut, origin):
         return False  # a node without the attribute is ignored by design: not a 'missing weight on a non-ignored element'
     if cls == "MinErrorFlow":
         # (MinErrorFlow documents no node-type requirement of its own; non-string nodes are not judged for it)
-        return mut in ("missing", "weight_type_str", "origin_foo", "unknown_start", "unknown_end", "scale_big", "scale_neg", "empty_graph")
+        if mut in ("unknown_start_edge", "unknown_end_edge"):
+            return origin == "node"
+        return mut in ("missing", "weight_type_str", "origin_foo", "unknown_start", "unknown_end", "scale_big", "scale_neg", "empty_graph", "nan_weight", "inf_weight", "tolerance_nan")
     if mut == "cycle":
         return not cyc
     if mut in ("no_source", "no_sink"):
         return cyc
-    if mut in ("negative", "negative_last", "missing"):
+    if mut in ("negative", "negative_last", "missing", "nan_weight", "inf_weight"):
         return cls in WEIGHTED
+    if mut in ("k_0_superset", "k_neg_superset"):
+        return cls in ("kFlowDecomp", "kLeastAbsErrors", "kMinPathError")  # the classes taking solution_weights_superset
+    if mut in ("unknown_start_edge", "unknown_end_edge"):
+        return cls in HAS_STARTS and origin == "node"  # an edge of the graph is not one of its nodes
     if mut in ("nonconserving", "nonconserving_quarter"):
         return cls in FD and origin == "edge"
     if mut.startswith("covlen"):
@@ -82,6 +89,8 @@ def required(cls, mut):
     """must a ValueError be raised (documented), or is 'never claims solved / never another exception type' all that is judged?"""
     if mut == "k_frac":
         return False
+    if mut == "inf_weight":
+        return False  # infinity is not negative: only 'never claims solved' is judged (NaN, which is not >= 0, must be rejected like a negative value)
     if mut in ("nonconserving", "nonconserving_quarter") and cls == "kFlowDecompCycles":
         return False  # not documented for this class; the instance is simply infeasible
     return True
@@ -128,10 +137,12 @@ def cases(tier, seed):
                     yield {"cls": cls, "base": base, "bi": bi, "origin": origin, "muts": [m], "fam": "cyc" if cls in CYC else "dag"}
                 if tier == "thorough":
                     def grp(m):
-                        if m in ("negative", "negative_last", "missing", "nonconserving", "nonconserving_quarter"):
+                        if m in ("negative", "negative_last", "missing", "nonconserving", "nonconserving_quarter", "nan_weight", "inf_weight"):
                             return "weights"
+                        if m.startswith("unknown_"):
+                            return "_".join(m.split("_")[:2])
                         return m.split("_")[0] if m.split("_")[0] in ("k", "coverage", "cons", "scale", "covlen") else m
-                    for m1, m2 in itertools.combinations(muts, 2):
+                    for m1, m2 in itertools.combinations([m for m in muts if m != "tolerance_nan"], 2):  # (tolerance_nan runs in a child process each: singles only)
                         if grp(m1) == grp(m2) or {grp(m1), grp(m2)} <= {"coverage", "cons", "covlen"}:
                             continue  # two violations of the same parameter overwrite each other
                         yield {"cls": cls, "base": base, "bi": bi, "origin": origin, "muts": [m1, m2], "fam": "cyc" if cls in CYC else "dag"}
@@ -222,6 +233,18 @@ def _build(case):
             kw["subpath_constraints_coverage_length"] = {"covlen_0": 0, "covlen_neg": -0.1, "covlen_big": 1.5, "covlen_without_length_attr": 0.5, "covlen_with_coverage": 0.5, "covlen_nan": float("nan")}[m]
             if m == "covlen_with_coverage":
                 kw["subpath_constraints_coverage"] = 0.5
+        elif m in ("nan_weight", "inf_weight"):
+            val = float("nan") if m == "nan_weight" else float("inf")
+            if origin == "edge":
+                arcs[-1][2] = val
+            else:
+                node_w[nodes[-1]] = val
+        elif m in ("k_0_superset", "k_neg_superset"):
+            # a given weight list must not switch the check of k off
+            kw["k"] = 0 if m == "k_0_superset" else -1
+            kw["solution_weights_superset"] = [1, 2, 3]
+        elif m in ("unknown_start_edge", "unknown_end_edge"):
+            kw["additional_starts" if m == "unknown_start_edge" else "additional_ends"] = [second_arc]
         elif m == "k_0":
             kw["k"] = 0
         elif m == "k_neg":
@@ -259,13 +282,45 @@ def _build(case):
         if G.number_of_nodes() == 0:
             G.add_edge(1, 2, flow=1)
     kw["solver_options"] = {"threads": 1}
+    if "tolerance_nan" in muts:
+        kw["solver_options"]["tolerance"] = float("nan")  # SolverWrapper documents tolerance >= 1e-9
     return G, kw, cover
+
+
+def _run_isolated(case):
+    """a case that has crashed the interpreter (HiGHS given a NaN tolerance) runs in a child process: a crash is an outcome, not the end of the exploration"""
+    import json
+    import os
+    import subprocess
+    import sys
+    here = os.path.dirname(os.path.dirname(os.path.dirname(os.path.abspath(__file__))))
+    ctx = f"{case['cls']}({case['origin']} mode, base {case['bi']}, violations={case['muts']})"
+    try:
+        p = subprocess.run([sys.executable, "-m", "mc.props.c19"], input=json.dumps(dict(case, isolated=True)), capture_output=True, text=True, cwd=here, timeout=90)
+    except subprocess.TimeoutExpired:
+        # (the same three-node instances solve in milliseconds)
+        return {"v": [{"kind": "no_answer", "mut": case["muts"], "msg": f"{ctx}: neither an error nor an answer within 90 s"}], "nt": None, "tags": {}, "out": "hang"}
+    line = [l for l in p.stdout.splitlines() if l.startswith("RESULT ")]
+    if p.returncode != 0 or not line:
+        return {"v": [{"kind": "interpreter_crash", "mut": case["muts"], "msg": f"{ctx}: the process died with status {p.returncode} (a negative status is a signal) instead of raising ValueError"}],
+                "nt": None, "tags": {}, "out": f"crash:{p.returncode}"}
+    return json.loads(line[-1][7:])
+
+
+def _solver_was_built(m):
+    """did the model (or the inner model of a minimum search) ever create a SolverWrapper? (the greedy route of the flow decompositions does not)"""
+    for obj in (m, getattr(m, "fd_model", None), getattr(m, "model", None)):
+        if obj is not None and getattr(obj, "solver", None) is not None:
+            return True
+    return False
 
 
 def run(case):
     import flowpaths as fp
     if case.get("long_chain"):
         return _run_long_chain(case)
+    if "tolerance_nan" in case["muts"] and not case.get("isolated"):
+        return _run_isolated(case)
     viol = []
     tags = collections.Counter()
     cls = getattr(fp, case["cls"])
@@ -305,6 +360,8 @@ def run(case):
             tags["other_exception_on_undocumented_violation(allowed)"] += 1
         elif exc is not None:
             viol.append({"kind": "wrong_exception_type", "mut": muts, "msg": f"{ctx}: raised {exc[0]}: {exc[1]} in {phase} instead of ValueError"})
+        elif solved and muts == ["tolerance_nan"] and not _solver_was_built(m):
+            tags["tolerance_never_used(answer_without_a_solver)"] += 1
         elif solved:
             viol.append({"kind": "invalid_input_solved", "mut": muts, "msg": f"{ctx}: no error and the model claims to be solved"})
         elif need:
@@ -312,3 +369,10 @@ def run(case):
         else:
             tags["unsolved_without_error(allowed)"] += 1
     return {"v": viol, "nt": nt, "tags": dict(tags), "out": f"{phase}:{exc[0] if exc else None}:{solved}"}
+
+
+if __name__ == "__main__":
+    import json
+    import sys
+    common.bind()
+    print("RESULT " + json.dumps(run(json.load(sys.stdin))))
